@@ -221,7 +221,8 @@ CHECKS["C20"] = dict(
     level_note="Backoff jitter is removed by the overlay (exact instants). The crash model is process kill at the listed boundaries with the nflog content of that instant (file-level crash consistency is C11).",
     assumptions=E1_ASSUME,
     units=[dict(pkg="notify", test="TestVerifC20", shards_quick=16, shards_thorough=16, budget_quick=200, budget_thorough=1500),
-           dict(pkg="notify/webhook", test="TestVerifC20Payload", shards_quick=1, shards_thorough=1, budget_quick=60, budget_thorough=120)],
+           dict(pkg="notify/webhook", test="TestVerifC20Payload", shards_quick=1, shards_thorough=1, budget_quick=60, budget_thorough=120),
+           dict(pkg="notify/webhook", test="TestVerifC20WebhookRetry", shards_quick=1, shards_thorough=1, budget_quick=60, budget_thorough=300)],
 )
 
 CHECKS["C11"] = dict(
